@@ -142,6 +142,16 @@ func init() {
 				cse.TimeoutMS = 120000
 				cs = append(cs, cse)
 			}
+			// extreme but legal numbers: limits in the upper half of the uint64 range, ticks beyond 32 bits
+			for i, ex := range []map[string]uint64{
+				{"limit": 1<<63 + 1000, "tick": 3}, {"limit": ^uint64(0), "tick": 3}, {"limit": 1 << 63, "tick": 9},
+				{"limit": 10, "tick": 1<<32 + 3}, {"limit": 10, "tick": 1 << 32}, {"limit": 10, "tick": 1 << 31}, {"limit": 7, "tick": 3 << 40},
+			} {
+				cse := core.MkCase("C02", "extremes", i, seed, ex)
+				cse.Race = i%2 == 0
+				cse.TimeoutMS = 60000
+				cs = append(cs, cse)
+			}
 			// config files with several rate-driven stages whose limit is reached in the first one
 			nfl := 6
 			if tier == "thorough" {
@@ -192,7 +202,7 @@ func init() {
 			}
 			return cs
 		},
-		Kinds:  map[string]core.RunFunc{"script": c02Script, "hook": c02Hook, "stress": c02Stress, "counter": c02Counter, "run": c02Run, "limitrace": c02LimitRace, "hammer": c02Hammer, "filecancel": c02FileCancel, "filelimit": c02FileLimit},
+		Kinds:  map[string]core.RunFunc{"script": c02Script, "hook": c02Hook, "stress": c02Stress, "counter": c02Counter, "run": c02Run, "limitrace": c02LimitRace, "hammer": c02Hammer, "filecancel": c02FileCancel, "filelimit": c02FileLimit, "extremes": c02Extremes},
 		Floors: map[string]int64{"script_steps": 500, "steps_superseding": 50, "steps_stop_with_pending": 10, "steps_limit_silent": 10, "hook_schedules_formed": 6, "stress_drops": 1000, "porcupine_histories": 400},
 	})
 }
@@ -953,7 +963,7 @@ func c02LimitRace(c *core.Case, o *core.Outcome) {
 	for i := 0; i < trials; i++ {
 		limit := uint64(1 + r.IntN(3))
 		tick := int(limit) + 2 + r.IntN(6)
-		m := workers.New(limit, env.Active)
+		m := engine.NewPoolManager(limit, env.Active)
 		ctx, cancel := context.WithCancel(context.Background())
 		pool := m.NewTriggerPool(w)
 		wctx := pool.Start(ctx)
@@ -1028,6 +1038,59 @@ func c02Hammer(c *core.Case, o *core.Outcome) {
 // c02FileCancel: a config-file run is stopped (cancel or max-duration) while a tick of a rate stage
 // is busy reporting a large superseded backlog as dropped. Whatever the run reports at its end must
 // be final: the dropped count must not move after Do returned.
+// c02Extremes: one tick on a pool of 4 idle workers with instant bodies.
+// Far limit, small tick: every request starts (the limit is nowhere near). Small limit, tick beyond 32 bits:
+// exactly `limit` requests start, the rest cannot start solely because of the limit (nothing dropped).
+func c02Extremes(c *core.Case, o *core.Outcome) {
+	var p map[string]uint64
+	c.Params(&p)
+	limit, tick := p["limit"], p["tick"]
+	var started atomic.Int64
+	env := engine.NewPoolEnv("extremes", func(t *f1testing.T) f1testing.RunFn {
+		return func(t *f1testing.T) { started.Add(1) }
+	}, limit, nil)
+	ctx, cancel := context.WithCancel(context.Background())
+	defer cancel()
+	pool := env.Manager.NewTriggerPool(4)
+	wctx := pool.Start(ctx)
+	pool.Trigger(wctx, int(tick))
+	want := int64(tick)
+	if limit < tick {
+		want = int64(limit)
+	}
+	desc := fmt.Sprintf("max-iterations=%d tick=%d workers=4", limit, tick)
+	ok := waitUntil(10*time.Second, func() bool { return started.Load() >= want })
+	limitSeen := waitUntil(300*time.Millisecond, func() bool { return wctx.Err() != nil })
+	if limit >= tick {
+		// the run goes on; stop it ourselves (nothing is pending)
+		cancel()
+	} else if !limitSeen {
+		cancel()
+		<-env.Manager.WaitForCompletion()
+		o.Violate("extremes:"+desc, "a tick of %d requests with max-iterations %d: %d iterations started and the pool did not stop by its limit (%s)", tick, limit, started.Load(), desc)
+		return
+	}
+	select {
+	case <-env.Manager.WaitForCompletion():
+	case <-time.After(20 * time.Second):
+		o.Inconc("pool did not complete (%s)", desc)
+		return
+	}
+	s, d := started.Load(), int64(droppedOf(env))
+	o.Events = s + d + 1
+	if !ok || s != want || d != 0 {
+		o.Violate("extremes:"+desc, "one tick of %d requests on 4 idle workers with max-iterations %d: %d started, %d reported dropped; expected %d started and 0 dropped (%s)", tick, limit, s, d, want, desc)
+		return
+	}
+	if limit >= tick && limitSeen {
+		o.Violate("extremes-limit:"+desc, "the pool stopped by its limit after %d iterations although max-iterations is %d (%s)", s, limit, desc)
+		return
+	}
+	o.AddObs("extreme_cases", 1)
+	o.Sig("extremes:farlimit=%v:hugetick=%v", limit > 1<<62, tick > 1<<30)
+	o.Sample = map[string]any{"case": desc, "started": s, "dropped": d}
+}
+
 // c02FileLimit: a config file with 2-4 rate-driven stages (tick = concurrency, instant bodies, so nothing is
 // ever pending at a tick) whose max-iterations is reached early in the first stage. Whatever the later stages
 // request cannot start solely because of the limit: it must not be reported dropped.
